@@ -758,11 +758,14 @@ where
         };
 
         //TODO: this should be checking against the reference picture to see if we need RPRP
+        //An intra picture has no reference picture to resample, so it may
+        //change the picture size freely.
         let reference_picture_resampling = if options
             .contains(PictureOption::REFERENCE_PICTURE_RESAMPLING)
-            || previous_picture
-                .map(|p| format.is_some() && p.format.is_some() && p.format != format)
-                .unwrap_or(false)
+            || (!matches!(picture_type, PictureTypeCode::IFrame)
+                && previous_picture
+                    .map(|p| format.is_some() && p.format.is_some() && p.format != format)
+                    .unwrap_or(false))
         {
             decode_rprp(reader)?
         } else {
